@@ -248,7 +248,7 @@ def run_unit(repo, unit, contracts_dir, tier='quick', jobs=8, keep=False):
             rec['checks_failed'] = pd.get('failed', 0)
             rec['cover_satisfied'] = pd.get('satisfied', 0)
             rec['undetermined'] = pd.get('undetermined', 0)
-            st = cb.get(hid, {}).get('cbmc_stats', {})
+            st = (cb.get(hid) or {}).get('cbmc_stats') or {}
             rec['solver_s'] = round(st.get('runtime_decision_procedure_s', 0) or 0, 4)
             rec['symex_s'] = round(st.get('runtime_symex_s', 0) or 0, 4)
             rec['vccs'] = st.get('vccs_generated', 0)
@@ -272,7 +272,7 @@ def run_unit(repo, unit, contracts_dir, tier='quick', jobs=8, keep=False):
                                         for c in chks if c.get('status') in ('Failure', 'Failed')]
                 et = errs.get(hid, {})
                 rec['error_type'] = et.get('error_type', '')
-                real = [f for f in rec['failed_checks'] if not re.search(r'unwinding assertion|recursion unwinding', f['desc'])]
+                real = [f for f in rec['failed_checks'] if not re.search(r'unwinding assertion|recursion unwinding|Only a single top-level call|is not currently supported|unsupported', f['desc'])]
                 if real and rec['checks_failed'] > 0:
                     rec['status'] = 'failed'
                     res['failures'].append(rec)
